@@ -23,7 +23,7 @@ func (*Map) isAnonymous()   {}
 func (b *Basic) Type() types.Type { return b.B }
 
 var (
-	timeTy = types.NewNamed(types.NewTypeName(0, nil, "Time", nil), &types.Struct{}, nil)
+	timeTy = types.NewNamed(types.NewTypeName(0, types.NewPackage("time", "time"), "Time", nil), &types.Struct{}, nil)
 	dateTy = types.NewNamed(types.NewTypeName(0, nil, "Date", nil), &types.Struct{}, nil)
 )
 
